@@ -42,17 +42,28 @@ char *verif_scoped_pending;     /* copy owned by the current loop-body scope */
 void verif_scope_end(void) { if (verif_scoped_pending) { free(verif_scoped_pending); verif_scoped_pending = 0; } }
 
 char *strdup(const char *s) {
+#ifdef ALLOC_EXACT
   size_t n = 0;
   while (n < STRCAP && s[n]) n++;
   __CPROVER_assert(s[n] == 0, "bound: strdup length within STRCAP");
   __CPROVER_assume(s[n] == 0);
   char *p = verif_stralloc(n + 1);
   for (size_t i = 0; i < STRCAP; i++) { if (i > n) break; p[i] = s[i]; }
+#else
+  /* the copy loop ends on the source's NUL, so that it stops concretely whenever that byte is
+     concrete even if earlier bytes are symbolic */
+  char *p = verif_stralloc(1);
+  size_t i = 0;
+  for (; i < STRCAP; i++) { p[i] = s[i]; if (s[i] == 0) break; }
+  __CPROVER_assert(i < STRCAP, "bound: strdup length within STRCAP");
+  __CPROVER_assume(i < STRCAP);
+#endif
   if (verif_scoped_src != 0 && s == verif_scoped_src) { verif_scope_end(); verif_scoped_pending = p; }
   return p;
 }
 
 char *strndup(const char *s, size_t m) {
+#ifdef ALLOC_EXACT
   size_t n = 0;
   while (n < STRCAP && n < m && s[n]) n++;
   __CPROVER_assert(n >= m || s[n] == 0, "bound: strndup length within STRCAP");
@@ -60,6 +71,14 @@ char *strndup(const char *s, size_t m) {
   char *p = verif_stralloc(n + 1);
   for (size_t i = 0; i < STRCAP; i++) { if (i >= n) break; p[i] = s[i]; }
   p[n] = 0;
+#else
+  char *p = verif_stralloc(1);
+  size_t i = 0;
+  for (; i < STRCAP - 1; i++) { if (i >= m || s[i] == 0) break; p[i] = s[i]; }
+  __CPROVER_assert(i >= m || s[i] == 0, "bound: strndup length within STRCAP");
+  __CPROVER_assume(i >= m || s[i] == 0);
+  p[i] = 0;
+#endif
   return p;
 }
 
@@ -128,7 +147,9 @@ size_t verif_vformat(char *out, size_t cap, const char *fmt, va_list ap) {
     p++;
     if (*p == '%') { PUT('%'); continue; }
     if (*p == 's') { const char *s = va_arg(ap, const char *); if (!s) s = "(null)"; for (size_t i = 0; s[i]; i++) PUT(s[i]); continue; }
-    if (*p == 'c') { char c = (char)va_arg(ap, int); PUT(c); continue; }
+    if (*p == 'c') { char c;   /* CBMC does not promote a char argument to int (cf. float below) */
+      if (__CPROVER_OBJECT_SIZE(*(void **)ap) == sizeof(char)) c = va_arg(ap, char); else c = (char)va_arg(ap, int);
+      PUT(c); continue; }
     char tmp[TOKLEN + 2]; size_t tl = 0;
     if (*p == 'd' || *p == 'i') { int v = va_arg(ap, int); tl = tok_put(tmp, 'i', 0, (uint64_t)(int64_t)v); }
     else if (*p == 'u') { unsigned v = va_arg(ap, unsigned); tl = tok_put(tmp, 'u', 0, (uint64_t)v); }
